@@ -128,6 +128,9 @@ func diffCase(c *Case, lean *LeanDriver) Verdict {
 	if tsPinnedOffsetMulti(plan) {
 		v.Features = append(v.Features, "ts-pinned-offset-multi")
 	}
+	if includesName(plan) {
+		v.Features = append(v.Features, "incl-name")
+	}
 	ans, err := lean.Ask(lines)
 	if err != nil {
 		v.Other = "lean: " + err.Error()
@@ -194,6 +197,7 @@ func runWorker(oracle string) {
 			}
 			var v Verdict
 			setOverflow(&c)
+			setConditioning(&c)
 			switch oracle {
 			case "diff":
 				v = diffCase(&c, lean)
